@@ -28,6 +28,9 @@ DEFAULT_PORTS = {"http": 80, "https": 443, "ws": 80, "wss": 443, "ftp": 21}
 REQUIRES_HOST = {"http", "https", "ws", "wss", "ftp"}
 USES_NETLOC = set(uses_netloc) - {""}
 
+# parts also run by 4 threads at once in one process (runner adds the jobs; see yv/ctx.py Ctx.threaded)
+SHARED = [("random", {"n": 3000, "no_structured": True}, {"n": 60000, "no_structured": True})]
+
 
 def plan(tier, seed):
     thorough = tier == "thorough"
@@ -420,7 +423,7 @@ def run(ctx):
                 for qf in ("", "?", "#", "?#", "?a#b", "#a?b", "??", "##"):
                     structured.append(sch + au + pa + qf)
     for i, s in enumerate(structured):
-        if not ctx.mine(i):
+        if not ctx.mine(i) or ctx.params.get("no_structured"):
             continue
         for pre in ("", " ", "\t", "\x00\x1f "):
             for enc in (True, False):
